@@ -51,7 +51,7 @@ func (c *countCtx) polls() int {
 	return c.n
 }
 
-var stubNames = []string{"probe", "id", "probe2", "probe3", "vprobe", "fv", "typed", "typed2", "vtyped", "boom", "zero", "two", "eachcb", "callcb0", "cbv", "panicwith", "panicctx", "wantsptr", "wantsptr2", "wantsstr", "wantsints", "wantsnil", "wantsnilv", "reterr", "reterr2"}
+var stubNames = []string{"probe", "id", "probe2", "probe3", "vprobe", "fv", "typed", "typed2", "vtyped", "boom", "zero", "two", "eachcb", "callcb0", "cbv", "panicwith", "panicctx", "wantsptr", "wantsptr2", "wantsstr", "wantsints", "wantsnil", "wantsnilv", "panicwithsliceerr", "reterr", "reterr2"}
 
 // vmResult is one run of a parsed program on the real interpreter.
 type vmResult struct {
@@ -98,6 +98,8 @@ func defineStubs(e *env.Env, tr func(interface{})) {
 		return int64(len(xs))
 	}))
 	must(e.Define("boom", func() { panic("boom") }))
+	// a host function that panics with an ERROR VALUE of a type Go cannot hash (a defined slice type): it is an error like any other
+	must(e.Define("panicwithsliceerr", func() { panic(stubSliceErr{"validation", "failed"}) }))
 	// a host function that panics with the value it is given (a non-error value, possibly with an empty text)
 	must(e.Define("panicwith", func(x interface{}) { panic(x) }))
 	// a host function that fails with one of the context package's errors (a timeout of its OWN, not of the run)
@@ -133,6 +135,10 @@ func defineStubs(e *env.Env, tr func(interface{})) {
 	must(e.Define("zero", func() {}))
 	must(e.Define("two", func() (interface{}, interface{}) { return int64(1), "two" }))
 }
+
+type stubSliceErr []string
+
+func (e stubSliceErr) Error() string { return strings.Join(e, " ") }
 
 // runVM executes stmt in a fresh environment with the stubs, cancelling at poll k (k<0: never).
 func runVM(stmt ast.Stmt, k int, limit time.Duration) vmResult {
